@@ -45,7 +45,9 @@ func capsField(c []string) string {
 }
 
 // rxpf <hexpattern> <hexin;hexin;…>
-//   => ast=<tree of (?sm)pattern> ast0=<tree of pattern> mml=<n> pfnil=<0/1> exact=<hex|-> eci=<0/1> res=<pf,on,off,capsOn,capsOff;…>
+//
+//	=> ast=<tree of (?sm)pattern> ast0=<tree of pattern> mml=<n> pfnil=<0/1> exact=<hex|-> eci=<0/1> res=<pf,on,off,capsOn,capsOff;…>
+//
 // `on` = @rx built with RxPreFilterEnabled, `off` = without; both evaluated twice: capturing and not.
 func execRxpf(a []string) string {
 	pat := gen.Unfield(a[0])
@@ -181,6 +183,10 @@ func (c *ctx) rxPattern() string {
 		// pure literal equality and friends
 		w := rxWords[r.Intn(22)]
 		p = r.Pick("^", "\\A", "(?i)^", "(?i)\\A") + w + r.Pick("$", "\\z")
+		if r.Chance(0.4) {
+			// the same inside a group (capturing or not): the exact-match shape seen through a group
+			p = r.Pick("(", "(?:", "((?i)", "(?i)(") + strings.TrimPrefix(p, "(?i)") + ")"
+		}
 	}
 	return p
 }
